@@ -31,7 +31,10 @@ Definition neighbours (ls : list (bytes * level)) (name : bytes) : list bytes :=
           | Some l => match lv_previous l with [] => [] | p => [p] end
           | None => []
           end)
-           ++ flat_map (fun kl => if beqb (lv_previous (snd kl)) name then [lv_name (snd kl)] else []) ls).
+           ++ flat_map (fun kl => match lv_previous (snd kl) with
+                                  | [] => []          (* a level without previous-priv links to nobody *)
+                                  | p => if beqb p name then [lv_name (snd kl)] else []
+                                  end) ls).
 
 (* buildPrivChangeMap: depth-first search; [steps] are the nodes on the current path *)
 Fixpoint build_path (fuel : nat) (net : netcfg) (current target : bytes) (steps : list bytes) : option (list bytes) :=
@@ -69,7 +72,7 @@ Inductive pa_result := PAOk (a : action) (cur' : bytes) | PAErr | PAPanic.
 Definition process_acquire (net : netcfg) (cached target prompt : bytes) : pa_result :=
   match determine_current net prompt with
   | [] => PAErr
-  | first :: _ as possible =>
+  | (first :: _) as possible =>
       let current :=
         if mem_bytes cached possible then cached
         else if mem_bytes target possible then
